@@ -29,6 +29,8 @@ func init() {
 				"(affinity) functions asserting serveG.Check() are unreachable from go statements, timer callbacks and the exported/handler-facing API except through serverConn.serve, functions asserting CheckNotOn() are unreachable from serve; " +
 				"(single-writer) frames are written only by writeFrames, fed only by startFrameWrite under the writingFrame flag; (queue-mutators) the per-stream queue is mutated only by push/shift/forgetStream; " +
 				"(panic-census) explicit panics and unchecked type assertions reachable from the serve loop are exactly the reviewed ones. " +
+				"Spelling independence: branch conditions are read through negation, named booleans, assigned `&&` / `||` and tagless switch cases (a boolean phi implies a fact when every feasible edge does); the DATA path of processData is examined over its region (processData plus private helpers whose every call site lies inside it): take/Write/refund may sit in a helper, the lookup and state tests established at the helper's single call site hold inside it, the helper's panics count towards processData's reviewed number, and the reviewed-caller / reviewed-writer tables (flow.take callers, WriteFrame, writingFrame, queue mutators) accept private helpers of the reviewed functions. " +
+				"Not decided, reported as a violation when met: a flow.take whose window test is in a different function than the take itself, the stream table insert or the maxStreamID store of processSynStream moved into a helper (the id is then a parameter of another frame), an overflow test of flow.add whose failure branch does not end in the error return itself, helpers shared by several reviewed functions (they belong to no region). " +
 				"Not covered: sums of windows over long histories, refunds for DATA dropped on unknown/closed streams or left unread in a closed pipe, scheduling order, frame-sequence semantics, index arithmetic panics.",
 			RuleText:    "obligations = each flow.take call, each writer of flow.n, each flow.add call, each window-update call in the refund chain, each guard of stream creation, each return of processSynStream behind the id tests (id recorded), each DATA acceptance guard, each success return of newWriterAndRequest (open => pipe), each store of stateOpen, each serve-only / not-serve function, each frame-writer site, each function with explicit panics on the serve path",
 			Assumptions: []string{"callbacks enter bfe_spdy from other packages only through exported functions, exported methods and interface methods (treated as non-serve roots)", "gotrack.GoroutineLock.Check/CheckNotOn are the affinity assertions"},
@@ -118,6 +120,10 @@ func init() {
 			{Name: "silent-receiver-renamed", File: "bfe_spdy/server_flow_control.go", Old: "func (sc *serverConn) noteBodyRead(st *stream, n int) {\n	sc.serveG.Check()\n	sc.sendWindowUpdate(nil, n) // conn-level\n	if st.state != stateHalfClosedRemote && st.state != stateClosed {\n		// Don't send this WINDOW_UPDATE if the stream is closed\n		// remotely.\n		sc.sendWindowUpdate(st, n)\n	}\n}", New: "func (conn *serverConn) noteBodyRead(s *stream, consumed int) {\n	conn.serveG.Check()\n	conn.sendWindowUpdate(nil, consumed)\n	if s.state == stateHalfClosedRemote || s.state == stateClosed {\n		return\n	}\n	conn.sendWindowUpdate(s, consumed)\n}", Silent: true},
 			{Name: "silent-inflow-check-operands-swapped", File: "bfe_spdy/server_process_frame.go", Old: "		if int(st.inflow.available()) < len(data) {", New: "		if len(data) > int(st.inflow.available()) {", Silent: true},
 			{Name: "silent-refund-with-logging-and-local", File: "bfe_spdy/server_flow_control.go", Old: "	sc.sendWindowUpdate(nil, n) // conn-level\n", New: "	consumed := n\n	println(\"refund\", consumed)\n	sc.sendWindowUpdate(nil, consumed) // conn-level\n", Silent: true},
+			{Name: "silent-data-state-tests-as-switch", File: "bfe_spdy/server_process_frame.go", Old: "\tst, ok := sc.streams[id]\n\tif !ok {\n\t\tstate.SpdyErrInvalidDataStream.Inc(1)\n\t\treturn StreamError{id, InvalidStream}\n\t}\n\tif st.state != stateOpen {\n\t\t// This includes sending a RST_STREAM if the stream is\n\t\t// in stateHalfClosedLocal (which currently means that\n\t\t// the http.Handler returned, so it's done reading &\n\t\t// done writing). Try to stop the client from sending\n\t\t// more DATA.\n\t\tstate.SpdyErrStreamAlreadyClosed.Inc(1)\n\t\treturn StreamError{id, StreamAlreadyClosed}\n\t}\n", New: "\tst, ok := sc.streams[id]\n\tswitch {\n\tcase !ok:\n\t\tstate.SpdyErrInvalidDataStream.Inc(1)\n\t\treturn StreamError{id, InvalidStream}\n\tcase st.state != stateOpen:\n\t\t// the stream is half closed (remote), half closed (local) or closed\n\t\tstate.SpdyErrStreamAlreadyClosed.Inc(1)\n\t\treturn StreamError{id, StreamAlreadyClosed}\n\t}\n", Silent: true},
+			{Name: "silent-data-payload-step-extracted-into-helper", File: "bfe_spdy/server_process_frame.go", Old: "\tif len(data) > 0 {\n\t\t// Check whether the client has flow control quota.\n\t\tif int(st.inflow.available()) < len(data) {\n\t\t\tstate.SpdyErrFlowControl.Inc(1)\n\t\t\treturn StreamError{id, FlowControlError}\n\t\t}\n\t\tst.inflow.take(int32(len(data)))\n\t\twrote, err := st.body.Write(data)\n\t\tif err != nil {\n\t\t\t// the bytes were taken from both windows but will never be\n\t\t\t// read: give them back to the connection-level window\n\t\t\tsc.sendWindowUpdate(nil, len(data))\n\t\t\tstate.SpdyErrStreamAlreadyClosed.Inc(1)\n\t\t\treturn StreamError{id, StreamAlreadyClosed}\n\t\t}\n\t\tif wrote != len(data) {\n\t\t\tpanic(\"internal error: bad Writer\")\n\t\t}\n\t\tst.bodyBytes += int64(len(data))\n\t}\n\tif f.StreamEnded() {\n\t\tif t := st.timeoutTimer; t != nil {\n\t\t\tt.Stop()\n\t\t}\n\n\t\tif st.declBodyBytes != -1 && st.declBodyBytes != st.bodyBytes {\n\t\t\tstate.SpdyErrBadRequest.Inc(1)\n\t\t\tst.body.CloseWithError(fmt.Errorf(\"request declared a Content-Length of %d but only wrote %d bytes\",\n\t\t\t\tst.declBodyBytes, st.bodyBytes))\n\t\t\treturn StreamError{id, ProtocolError}\n\t\t}\n\t\tst.body.CloseWithError(io.EOF)\n\t\tst.state = stateHalfClosedRemote\n\t}\n\treturn nil\n}\n", New: "\tif err := sc.chargeAndStore(st, data); err != nil {\n\t\treturn err\n\t}\n\tif f.StreamEnded() {\n\t\tif t := st.timeoutTimer; t != nil {\n\t\t\tt.Stop()\n\t\t}\n\n\t\tif st.declBodyBytes != -1 && st.declBodyBytes != st.bodyBytes {\n\t\t\tstate.SpdyErrBadRequest.Inc(1)\n\t\t\tst.body.CloseWithError(fmt.Errorf(\"request declared a Content-Length of %d but only wrote %d bytes\",\n\t\t\t\tst.declBodyBytes, st.bodyBytes))\n\t\t\treturn StreamError{id, ProtocolError}\n\t\t}\n\t\tst.body.CloseWithError(io.EOF)\n\t\tst.state = stateHalfClosedRemote\n\t}\n\treturn nil\n}\n\n// chargeAndStore charges the payload of a DATA frame to the receive windows\n// and appends it to the request body.\nfunc (sc *serverConn) chargeAndStore(st *stream, chunk []byte) error {\n\tif len(chunk) == 0 {\n\t\treturn nil\n\t}\n\tif int(st.inflow.available()) < len(chunk) {\n\t\tstate.SpdyErrFlowControl.Inc(1)\n\t\treturn StreamError{st.id, FlowControlError}\n\t}\n\tst.inflow.take(int32(len(chunk)))\n\tstored, err := st.body.Write(chunk)\n\tif err != nil {\n\t\tsc.sendWindowUpdate(nil, len(chunk))\n\t\tstate.SpdyErrStreamAlreadyClosed.Inc(1)\n\t\treturn StreamError{st.id, StreamAlreadyClosed}\n\t}\n\tif stored != len(chunk) {\n\t\tpanic(\"internal error: bad Writer\")\n\t}\n\tst.bodyBytes += int64(len(chunk))\n\treturn nil\n}\n", Silent: true},
+			{Name: "silent-id-tests-as-assigned-conjunction", File: "bfe_spdy/server_process_frame.go", Old: "\tif id%2 != 1 || id < sc.maxStreamID {\n\t\t// \"If the client is initiating the stream, the Stream-ID must\n\t\t// be even. [...] The stream-id MUST increase with each new stream.\n\t\t// If an endpoint receives a SYN_STREAM with a stream id which is\n\t\t// less than any previously recevied SYN_STREAM, it MUST issue a\n\t\t// session error with the status PROTOCOL_ERROR. See Section 2.3.2\"\n\t\tstate.SpdyErrInvalidSynStream.Inc(1)\n\t\treturn ConnectionError(ProtocolError)\n\t}\n\tif id == sc.maxStreamID {", New: "\tidAcceptable := id%2 == 1 && id >= sc.maxStreamID\n\tif !idAcceptable {\n\t\t// \"If the client is initiating the stream, the Stream-ID must\n\t\t// be even. [...] The stream-id MUST increase with each new stream.\n\t\t// If an endpoint receives a SYN_STREAM with a stream id which is\n\t\t// less than any previously recevied SYN_STREAM, it MUST issue a\n\t\t// session error with the status PROTOCOL_ERROR. See Section 2.3.2\"\n\t\tstate.SpdyErrInvalidSynStream.Inc(1)\n\t\treturn ConnectionError(ProtocolError)\n\t}\n\tif id == sc.maxStreamID {", Silent: true},
+			{Name: "silent-open-test-spelled-as-negated-inequality", File: "bfe_spdy/server_process_frame.go", Old: "\tbodyOpen := st.state == stateOpen\n", New: "\tbodyClosed := st.state != stateOpen\n\tbodyOpen := !bodyClosed\n", Silent: true},
 		},
 	})
 }
@@ -323,21 +329,13 @@ func runC40(c *core.Ctx) {
 	rs := func(v ssa.Value) string { return core.Render(strip(v)) }
 	upper := func(op token.Token) bool { return op == token.LSS || op == token.LEQ || op == token.EQL }
 	// block reached when the guard g does NOT hold
-	violated := func(g core.Guard) *ssa.BasicBlock {
-		refs := g.Cond.Referrers()
-		if refs == nil {
-			return nil
-		}
-		for _, r := range *refs {
-			if ifi, ok := r.(*ssa.If); ok {
-				if g.Pol {
-					return ifi.Block().Succs[1]
-				}
-				return ifi.Block().Succs[0]
-			}
-		}
-		return nil
-	}
+	violated := spdyViolated
+	// regions: a private helper of an anchor function (all of its call sites
+	// inside the anchor's region) is part of the anchor: extracting a block of
+	// processData into a helper moves no obligation to another function
+	owners := spdyRegionSet(c.P, "serverConn.processData", "writeScheduler.takeFrom", "serverConn.writeFrames", "serverConn.rejectConn",
+		"serverConn.serve", "serverConn.startFrameWrite", "serverConn.wroteFrame", "writeQueue.push", "writeQueue.shift", "writeScheduler.forgetStream")
+	owner := func(f *ssa.Function) string { return spdyOwner(owners, f) }
 	endsInError := func(b *ssa.BasicBlock) bool {
 		if b == nil || len(b.Instrs) == 0 {
 			return false
@@ -391,8 +389,10 @@ func runC40(c *core.Ctx) {
 			guardedBy := func(gs []core.Guard, v ssa.Value, seen map[ssa.Value]bool) bool {
 				want := rs(v)
 				for _, g := range gs {
-					cmp, ok := spdyNorm(g.Cond, g.Pol, func(x ssa.Value) bool { return core.Render(x) == want })
-					if ok && upper(cmp.Op) && leq(cmp.Other, seen) {
+					if spdyImplied(g, func(a core.Guard) bool {
+						cmp, ok := spdyNorm(a.Cond, a.Pol, func(x ssa.Value) bool { return core.Render(x) == want })
+						return ok && upper(cmp.Op) && leq(cmp.Other, seen)
+					}, false) {
 						return true
 					}
 				}
@@ -424,10 +424,12 @@ func runC40(c *core.Ctx) {
 			ok := leq(args[1], map[ssa.Value]bool{})
 			if !ok {
 				want := rs(args[1])
-				ok = spdyEdgeGuarded(blk, func(g core.Guard) bool {
-					cmp, isCmp := spdyNorm(g.Cond, g.Pol, func(x ssa.Value) bool { return core.Render(x) == want })
-					if isCmp && upper(cmp.Op) && leq(cmp.Other, map[ssa.Value]bool{}) {
-						gg := g
+				ok = core.AllEdgesGuarded(blk, func(g core.Guard) bool {
+					if spdyImplied(g, func(a core.Guard) bool {
+						cmp, isCmp := spdyNorm(a.Cond, a.Pol, func(x ssa.Value) bool { return core.Render(x) == want })
+						return isCmp && upper(cmp.Op) && leq(cmp.Other, map[ssa.Value]bool{})
+					}, false) {
+						gg := g // the branch itself (it names the block taken when the test fails)
 						hit = &gg
 						return true
 					}
@@ -436,7 +438,7 @@ func runC40(c *core.Ctx) {
 			}
 			c.Check("take-guard", fmt.Sprintf("%s:take#%d", spdyShort(f), n), call.Pos(), ok,
 				"flow.take("+core.Render(args[1])+") on "+recv+" is reachable without "+rs(args[1])+" <= "+recv+".available() having been established (comparison on the same flow, or a min-chain of available() through clamps): more bytes are taken than the window holds — inbound: the peer overruns the advertised window; outbound: more DATA is sent than the peer allows (and flow.take panics)")
-			if spdyShort(f) == "serverConn.processData" {
+			if owner(f) == "serverConn.processData" {
 				want, okK := constVal("FlowControlError")
 				got, okC := int64(-1), false
 				if hit != nil {
@@ -456,7 +458,7 @@ func runC40(c *core.Ctx) {
 		for _, f := range fns {
 			for i, call := range core.Calls(f, flowTake) {
 				s := spdyShort(f)
-				c.Check("flow-census", fmt.Sprintf("take-callers|%s#%d", s, i+1), call.Pos(), s == "serverConn.processData" || s == "writeScheduler.takeFrom",
+				c.Check("flow-census", fmt.Sprintf("take-callers|%s#%d", s, i+1), call.Pos(), owner(f) == "serverConn.processData" || owner(f) == "writeScheduler.takeFrom",
 					"flow.take is called from "+s+"; only processData (inbound DATA) and takeFrom (outbound DATA) are reviewed consumers of a window")
 			}
 		}
@@ -474,7 +476,7 @@ func runC40(c *core.Ctx) {
 			switch s {
 			case "flow.take":
 				ok = val != nil && val.Op == token.SUB && val.Y == param && core.Render(val.X) == core.Render(st.Store.Addr) &&
-					core.HasGuard(st.Store.Block(), func(g core.Guard) bool {
+					spdyHasGuard(st.Store.Block(), func(g core.Guard) bool {
 						cmp, isCmp := spdyNorm(g.Cond, g.Pol, func(x ssa.Value) bool { return x == param })
 						if !isCmp || !upper(cmp.Op) {
 							return false
@@ -484,7 +486,7 @@ func runC40(c *core.Ctx) {
 					})
 			case "flow.add":
 				ok = val != nil && val.Op == token.ADD && val.Y == param && core.Render(val.X) == core.Render(st.Store.Addr) &&
-					core.HasGuard(st.Store.Block(), func(g core.Guard) bool {
+					spdyHasGuard(st.Store.Block(), func(g core.Guard) bool {
 						cmp, isCmp := spdyNorm(g.Cond, g.Pol, func(x ssa.Value) bool { return x == param })
 						if !isCmp || !upper(cmp.Op) {
 							return false
@@ -606,14 +608,14 @@ func runC40(c *core.Ctx) {
 			ok := a[1] == ssa.Value(st)
 			blk := call.(ssa.Instruction).Block()
 			if k, isK := spdyConstInt(a[2]); isK {
-				ok = ok && k > 0 && k <= 1<<31-1 && core.HasGuard(blk, func(g core.Guard) bool {
+				ok = ok && k > 0 && k <= 1<<31-1 && spdyHasGuard(blk, func(g core.Guard) bool {
 					cmp, isCmp := spdyNorm(g.Cond, g.Pol, func(x ssa.Value) bool { _, p := x.(*ssa.Phi); return p || x == ssa.Value(f.Params[2]) })
 					lo, isLo := spdyConstInt(cmp.Other)
 					return isCmp && isLo && ((cmp.Op == token.GEQ && lo >= k) || (cmp.Op == token.GTR && lo+1 >= k))
 				})
 			} else {
 				src := strip(a[2])
-				ok = ok && core.HasGuard(blk, func(g core.Guard) bool {
+				ok = ok && spdyHasGuard(blk, func(g core.Guard) bool {
 					cmp, isCmp := spdyNorm(g.Cond, g.Pol, func(x ssa.Value) bool { return x == src })
 					hi, isHi := spdyConstInt(cmp.Other)
 					return isCmp && isHi && ((cmp.Op == token.LSS && hi <= 1<<31-1) || (cmp.Op == token.LEQ && hi <= 1<<31-2))
@@ -644,7 +646,7 @@ func runC40(c *core.Ctx) {
 			recv := core.Render(a[0])
 			blk := call.(ssa.Instruction).Block()
 			level := func(want token.Token) bool {
-				return core.HasGuard(blk, func(g core.Guard) bool {
+				return spdyHasGuard(blk, func(g core.Guard) bool {
 					cmp, ok := spdyNorm(g.Cond, g.Pol, func(x ssa.Value) bool { return x == ssa.Value(st) })
 					return ok && cmp.Op == want && spdyIsNil(cmp.Other)
 				})
@@ -704,10 +706,17 @@ func runC40(c *core.Ctx) {
 	}
 	pd := fn("serverConn.processData")
 	if pd != nil {
-		takes := core.Calls(pd, flowTake)
-		writes := core.Calls(pd, "bfe_util/pipe.Pipe.Write")
-		if len(takes) == 1 && len(writes) == 1 {
-			take, write := takes[0].(ssa.Instruction), writes[0].(*ssa.Call)
+		// the take, the body write and the refund may sit in a private helper of
+		// processData (its region); they are related inside the function that holds them
+		takes := c.P.RegionCalls(pd, flowTake)
+		writes := c.P.RegionCalls(pd, "bfe_util/pipe.Pipe.Write")
+		var write *ssa.Call
+		if len(writes) == 1 {
+			write, _ = writes[0].(*ssa.Call)
+		}
+		if len(takes) == 1 && write != nil && takes[0].Parent() == write.Parent() {
+			take := takes[0].(ssa.Instruction)
+			pd := take.Parent() // processData or the helper that holds the block
 			x, isLen := spdyLenArg(takes[0].Common().Args[1])
 			c.Check("refund", "processData:take-equals-written", take.Pos(), isLen && core.Render(x) == core.Render(write.Call.Args[1]) && core.Dominates(take, write),
 				"the amount taken from the window ("+core.Render(takes[0].Common().Args[1])+") must be the length of the slice handed to the body pipe ("+core.Render(write.Call.Args[1])+")")
@@ -719,7 +728,7 @@ func runC40(c *core.Ctx) {
 			}
 			n := 0
 			for _, r := range core.Returns(pd) {
-				failed := werr != nil && core.HasGuard(r.Block(), func(g core.Guard) bool {
+				failed := werr != nil && spdyHasGuard(r.Block(), func(g core.Guard) bool {
 					cmp, ok := spdyNorm(g.Cond, g.Pol, func(v ssa.Value) bool { return v == werr })
 					return ok && cmp.Op == token.NEQ && spdyIsNil(cmp.Other)
 				})
@@ -727,7 +736,7 @@ func runC40(c *core.Ctx) {
 					continue
 				}
 				n++
-				bad := core.ReachAvoiding(pd, take, isConnRefund, func(in ssa.Instruction) bool { return in == ssa.Instruction(r) })
+				bad := core.ReachAvoiding(pd, take, core.LiftMust(isConnRefund, 2), func(in ssa.Instruction) bool { return in == ssa.Instruction(r) })
 				c.Check("refund", fmt.Sprintf("processData:write-error#%d", n), r.Pos(), bad == nil,
 					"after st.inflow.take(len(data)) the body pipe rejected the bytes (handler closed the request body) and processData returns without sendWindowUpdate(nil, len(data)): the stream dies but the connection-level window has lost these bytes for good")
 			}
@@ -735,7 +744,7 @@ func runC40(c *core.Ctx) {
 				c.Check("refund", "processData:write-error#1", pd.Pos(), false, "no return handling a failed body write was found")
 			}
 		} else {
-			c.Check("refund", "processData:take-equals-written", pd.Pos(), false, fmt.Sprintf("expected one flow.take and one pipe.Write in processData, found %d and %d", len(takes), len(writes)))
+			c.Check("refund", "processData:take-equals-written", pd.Pos(), false, fmt.Sprintf("expected one flow.take and one pipe.Write in one function of processData's region (processData and its private helpers), found %d and %d", len(takes), len(writes)))
 		}
 	}
 	c.Min("refund", 9)
@@ -754,36 +763,54 @@ func runC40(c *core.Ctx) {
 		} else {
 			id := rs(mu.Key)
 			type facts struct{ parity, ge, ne, gt, notGoAway bool }
+			// atomic facts about the id; a branch condition counts when it implies
+			// the fact (spdyImplied: named booleans, `ok := odd && above` ...); the
+			// branch itself is remembered: it names the block taken on violation
+			notGoAway := func(g core.Guard) bool {
+				v, truth := spdyBoolCond(g.Cond, g.Pol)
+				return !truth && strings.HasSuffix(core.Render(v), ".inGoAway")
+			}
+			isParity := func(g core.Guard) bool {
+				cmp, ok := spdyNorm(g.Cond, g.Pol, func(x ssa.Value) bool {
+					b, ok := x.(*ssa.BinOp)
+					if !ok || b.Op != token.REM || rs(b.X) != id {
+						return false
+					}
+					k, isK := spdyConstInt(b.Y)
+					return isK && k == 2
+				})
+				if !ok {
+					return false
+				}
+				k, isK := spdyConstInt(cmp.Other)
+				return isK && ((cmp.Op == token.EQL && k == 1) || (cmp.Op == token.NEQ && k == 0))
+			}
+			cmpMax := func(op token.Token) func(core.Guard) bool {
+				return func(g core.Guard) bool {
+					cmp, ok := spdyNorm(g.Cond, g.Pol, func(x ssa.Value) bool { return core.Render(x) == id })
+					return ok && cmp.Op == op && strings.HasSuffix(rs(cmp.Other), ".maxStreamID")
+				}
+			}
 			gather := func(b *ssa.BasicBlock) (ft facts, gs map[string]core.Guard) {
 				gs = map[string]core.Guard{}
 				for _, g := range core.GuardsAt(b) {
-					if v, truth := spdyBoolCond(g.Cond, g.Pol); !truth && strings.HasSuffix(core.Render(v), ".inGoAway") {
+					if spdyImplied(g, notGoAway, false) {
 						ft.notGoAway = true
 					}
-					if cmp, ok := spdyNorm(g.Cond, g.Pol, func(x ssa.Value) bool {
-						b, ok := x.(*ssa.BinOp)
-						if !ok || b.Op != token.REM || rs(b.X) != id {
-							return false
-						}
-						k, isK := spdyConstInt(b.Y)
-						return isK && k == 2
-					}); ok {
-						if k, isK := spdyConstInt(cmp.Other); isK && ((cmp.Op == token.EQL && k == 1) || (cmp.Op == token.NEQ && k == 0)) {
-							ft.parity = true
-							gs["parity"] = g
-						}
+					if spdyImplied(g, isParity, false) {
+						ft.parity = true
+						gs["parity"] = g
 					}
-					if cmp, ok := spdyNorm(g.Cond, g.Pol, func(x ssa.Value) bool { return core.Render(x) == id }); ok && strings.HasSuffix(rs(cmp.Other), ".maxStreamID") {
-						switch cmp.Op {
-						case token.GEQ:
-							ft.ge = true
-							gs["not-lower"] = g
-						case token.NEQ:
-							ft.ne = true
-							gs["not-equal"] = g
-						case token.GTR:
-							ft.gt = true
-						}
+					if spdyImplied(g, cmpMax(token.GEQ), false) {
+						ft.ge = true
+						gs["not-lower"] = g
+					}
+					if spdyImplied(g, cmpMax(token.NEQ), false) {
+						ft.ne = true
+						gs["not-equal"] = g
+					}
+					if spdyImplied(g, cmpMax(token.GTR), false) {
+						ft.gt = true
 					}
 				}
 				return
@@ -844,7 +871,7 @@ func runC40(c *core.Ctx) {
 					continue
 				}
 				started = true
-				okLim := core.HasGuard(g.Block(), func(gd core.Guard) bool {
+				okLim := spdyHasGuard(g.Block(), func(gd core.Guard) bool {
 					cmp, ok := spdyNorm(gd.Cond, gd.Pol, func(x ssa.Value) bool { return strings.HasSuffix(core.Render(x), ".curOpenStreams") })
 					return ok && upper(cmp.Op) && strings.HasSuffix(rs(cmp.Other), ".advMaxStreams")
 				})
@@ -881,13 +908,12 @@ func runC40(c *core.Ctx) {
 			}
 			n++
 			open, okK := constVal("stateOpen")
-			guarded := okK && core.HasGuard(s.Block(), func(g core.Guard) bool {
-				v, truth := spdyBoolCond(g.Cond, g.Pol)
-				b, isCmp := v.(*ssa.BinOp)
-				if !truth || !isCmp || b.Op != token.EQL || !strings.HasSuffix(core.Render(b.X), ".state") {
+			guarded := okK && spdyHasGuard(s.Block(), func(g core.Guard) bool {
+				cmp, isCmp := spdyNorm(g.Cond, g.Pol, func(x ssa.Value) bool { return strings.HasSuffix(core.Render(x), ".state") })
+				if !isCmp || cmp.Op != token.EQL {
 					return false
 				}
-				k, isK := spdyConstInt(b.Y)
+				k, isK := spdyConstInt(cmp.Other)
 				return isK && k == open
 			})
 			c.Check("body-invariant", fmt.Sprintf("newWriterAndRequest:pipe#%d", n), s.Pos(), guarded && !spdyIsNil(s.Val), "the request body pipe must be created exactly when the stream is in state open")
@@ -905,7 +931,7 @@ func runC40(c *core.Ctx) {
 		idle, okK := constVal("stateIdle")
 		found := false
 		for _, r := range core.Returns(f) {
-			if core.HasGuard(r.Block(), func(g core.Guard) bool {
+			if spdyHasGuard(r.Block(), func(g core.Guard) bool {
 				cmp, ok := spdyNorm(g.Cond, g.Pol, func(x ssa.Value) bool { _, e := x.(*ssa.Extract); return e })
 				k, isK := spdyConstInt(cmp.Other)
 				return ok && cmp.Op == token.EQL && isK && okK && k == idle
@@ -923,27 +949,42 @@ func runC40(c *core.Ctx) {
 	// ---- data-state ------------------------------------------------------------
 	if pd != nil {
 		open, okK := constVal("stateOpen")
-		sites := append(core.Calls(pd, flowTake), core.Calls(pd, "bfe_util/pipe.Pipe.Write")...)
+		// the sites may sit in a private helper of processData: the conditions
+		// established at the helper's single call site hold inside it (GuardsAtCtx)
+		sites := append(c.P.RegionCalls(pd, flowTake), c.P.RegionCalls(pd, "bfe_util/pipe.Pipe.Write")...)
 		okLookup, okOpen := len(sites) > 0, len(sites) > 0 && okK
 		var gl, gopen *core.Guard
+		found := func(g core.Guard) bool {
+			v, truth := spdyBoolCond(g.Cond, g.Pol)
+			if !truth {
+				return false
+			}
+			ex, ok := v.(*ssa.Extract)
+			if !ok || ex.Index != 1 {
+				return false
+			}
+			lk, ok := ex.Tuple.(*ssa.Lookup)
+			return ok && strings.HasSuffix(core.Render(lk.X), ".streams")
+		}
+		isOpen := func(g core.Guard) bool {
+			cmp, ok := spdyNorm(g.Cond, g.Pol, func(x ssa.Value) bool { return strings.HasSuffix(core.Render(x), ".state") })
+			if !ok || cmp.Op != token.EQL {
+				return false
+			}
+			k, isK := spdyConstInt(cmp.Other)
+			return isK && k == open
+		}
 		for _, s := range sites {
 			b := s.(ssa.Instruction).Block()
 			l, o := false, false
-			for _, g := range core.GuardsAt(b) {
+			for _, g := range c.P.GuardsAtCtx(b) {
 				gg := g
-				if v, truth := spdyBoolCond(g.Cond, g.Pol); truth {
-					if ex, ok := v.(*ssa.Extract); ok && ex.Index == 1 {
-						if lk, ok := ex.Tuple.(*ssa.Lookup); ok && strings.HasSuffix(core.Render(lk.X), ".streams") {
-							l, gl = true, &gg
-						}
-					}
+				if spdyImplied(g, found, false) {
+					l, gl = true, &gg
 				}
-				if cmp, ok := spdyNorm(g.Cond, g.Pol, func(x ssa.Value) bool { return strings.HasSuffix(core.Render(x), ".state") }); ok && cmp.Op == token.EQL {
-					if k, isK := spdyConstInt(cmp.Other); isK && k == open {
-						o, gopen = true, &gg
-					}
+				if spdyImplied(g, isOpen, false) {
+					o, gopen = true, &gg
 				}
-				// also accept `st != nil` after a plain lookup
 			}
 			okLookup = okLookup && l
 			okOpen = okOpen && o
@@ -1055,6 +1096,18 @@ func runC40(c *core.Ctx) {
 		c.Min("affinity", 30)
 
 		// ---- panic-census (serve side) -----------------------------------------
+		// counted per region: the panics of a private helper belong to the
+		// reviewed function it was extracted from
+		var reviewed []string
+		for name := range c40Reviewed {
+			reviewed = append(reviewed, name)
+		}
+		sort.Strings(reviewed)
+		censusOwner := spdyRegionSet(c.P, reviewed...)
+		type tally struct{ p, a int }
+		tallies := map[string]*tally{}
+		first := map[string]*ssa.Function{}
+		var order []string
 		for _, f := range g.fns {
 			if _, ok := fromServe[f]; !ok {
 				continue
@@ -1080,9 +1133,21 @@ func runC40(c *core.Ctx) {
 			if p == 0 && a == 0 {
 				continue
 			}
-			rv := c40Reviewed[spdyShort(f)]
-			c.Check("panic-census", spdyShort(f), f.Pos(), p <= rv.panics && a <= rv.asserts,
-				fmt.Sprintf("%s is reachable from the serve loop and contains %d explicit panic(s) and %d unchecked type assertion(s); reviewed: %d and %d (%s). A new panic site on the frame path lets a client frame sequence kill the connection's serve goroutine", spdyShort(f), p, a, rv.panics, rv.asserts, rv.why))
+			name := spdyOwner(censusOwner, f)
+			if tallies[name] == nil {
+				tallies[name] = &tally{}
+				order = append(order, name)
+			}
+			tallies[name].p += p
+			tallies[name].a += a
+			if first[name] == nil || spdyShort(f) == name {
+				first[name] = f
+			}
+		}
+		for _, name := range order {
+			t, rv := tallies[name], c40Reviewed[name]
+			c.Check("panic-census", name, first[name].Pos(), t.p <= rv.panics && t.a <= rv.asserts,
+				fmt.Sprintf("%s (with its private helpers) is reachable from the serve loop and contains %d explicit panic(s) and %d unchecked type assertion(s); reviewed: %d and %d (%s). A new panic site on the frame path lets a client frame sequence kill the connection's serve goroutine", name, t.p, t.a, rv.panics, rv.asserts, rv.why))
 		}
 		c.Min("panic-census", 12)
 	}
@@ -1091,18 +1156,18 @@ func runC40(c *core.Ctx) {
 	for _, f := range fns {
 		for _, call := range core.Calls(f, spdyPkg+".Framer.WriteFrame") {
 			s := spdyShort(f)
-			c.Check("single-writer", "WriteFrame@"+s, call.Pos(), s == "serverConn.writeFrames" || s == "serverConn.rejectConn",
+			c.Check("single-writer", "WriteFrame@"+s, call.Pos(), owner(f) == "serverConn.writeFrames" || owner(f) == "serverConn.rejectConn",
 				"Framer.WriteFrame is called from "+s+"; frames may only be written by the writeFrames goroutine (and by rejectConn before the serve loop exists): a second writer interleaves bytes of two frames on the connection")
 		}
 		for _, in := range allInstrs(f) {
 			switch x := in.(type) {
 			case *ssa.Go:
 				if core.CallIs(x.Common(), spdyPkg+".serverConn.writeFrames") {
-					c.Check("single-writer", "go-writeFrames@"+spdyShort(f), x.Pos(), spdyShort(f) == "serverConn.serve" && !spdyInLoop(x.Block()), "the frame-writing goroutine must be started exactly once, by serve")
+					c.Check("single-writer", "go-writeFrames@"+spdyShort(f), x.Pos(), owner(f) == "serverConn.serve" && !spdyInLoop(x.Block()), "the frame-writing goroutine must be started exactly once, by serve")
 				}
 			case *ssa.Send:
 				if strings.HasSuffix(core.Render(x.Chan), ".sendChan") {
-					okFlag := core.HasGuard(x.Block(), func(gd core.Guard) bool {
+					okFlag := spdyHasGuardCtx(c.P, x.Block(), func(gd core.Guard) bool {
 						v, truth := spdyBoolCond(gd.Cond, gd.Pol)
 						return !truth && strings.HasSuffix(core.Render(v), ".writingFrame")
 					})
@@ -1112,13 +1177,13 @@ func runC40(c *core.Ctx) {
 							set = true
 						}
 					}
-					c.Check("single-writer", "send@"+spdyShort(f), x.Pos(), spdyShort(f) == "serverConn.startFrameWrite" && okFlag && set,
+					c.Check("single-writer", "send@"+spdyShort(f), x.Pos(), owner(f) == "serverConn.startFrameWrite" && okFlag && set,
 						"a frame is handed to the writer goroutine outside startFrameWrite, or without `writingFrame` having been tested false and then set: two frames could be in flight and the one-slot channel would block the serve loop")
 				}
 			case *ssa.Store:
 				if strings.HasSuffix(core.Render(x.Addr), ".writingFrame") {
 					v, s := core.Render(x.Val), spdyShort(f)
-					c.Check("single-writer", "flag-"+v+"@"+s, x.Pos(), (v == "true" && s == "serverConn.startFrameWrite") || (v == "false" && s == "serverConn.wroteFrame"),
+					c.Check("single-writer", "flag-"+v+"@"+s, x.Pos(), (v == "true" && owner(f) == "serverConn.startFrameWrite") || (v == "false" && owner(f) == "serverConn.wroteFrame"),
 						"sc.writingFrame is set to "+v+" in "+s+"; reviewed: true in startFrameWrite, false in wroteFrame")
 				}
 			}
@@ -1129,7 +1194,7 @@ func runC40(c *core.Ctx) {
 	// ---- queue-mutators ----------------------------------------------------------------
 	if qs := fieldVar("writeQueue.s"); qs != nil {
 		for _, st := range core.FieldStores(fns, qs) {
-			s := spdyShort(st.Fn)
+			s := owner(st.Fn)
 			ok := s == "writeQueue.push" || s == "writeQueue.shift" || s == "writeScheduler.forgetStream"
 			if s == "writeQueue.push" {
 				cl, isCall := st.Store.Val.(*ssa.Call)
